@@ -523,6 +523,15 @@ fn deflater_contract(rng: &mut Rng, n: usize, st: &mut Stats) {
 /// parallel), and in half of the cases one frame - not the last - whose data does not decode: the call has to fail the
 /// same way under every pool, never hand out whatever happened to be finished.
 fn apng_case(rng: &mut Rng, st: &mut Stats) -> Case {
+    let damage = rng.bool();
+    let (case, damaged) = apng_case_with(rng, damage);
+    if damaged { st.count("apng_cases_with_damaged_frame"); }
+    st.count("apng_cases");
+    case
+}
+
+/// an animated case; with `damage` one frame that is not the last gets undecodable data (second component: done)
+pub fn apng_case_with(rng: &mut Rng, damage: bool) -> (Case, bool) {
     use crate::img::*;
     let (ct, depth) = *rng.choose(&[(2u8, 8u8), (6, 8), (0, 8), (3, 8)]);
     let (w, h) = (rng.range(24, 64) as u32, rng.range(24, 64) as u32);
@@ -532,7 +541,8 @@ fn apng_case(rng: &mut Rng, st: &mut Stats) -> Case {
     let default_in = rng.bool();
     let mut input = crate::front::encode_apng_with(rng, &img, nf, default_in, 1, &[]);
     let mut class = format!("{} apng{}", info.class, nf);
-    if rng.bool() {
+    let mut damaged = false;
+    if damage {
         if let Ok(chunks) = crate::pngparse::parse_chunks(&input) {
             let fdats: Vec<usize> = chunks.iter().enumerate().filter(|(_, c)| &c.name == b"fdAT").map(|(i, _)| i).collect();
             if fdats.len() >= 2 {
@@ -545,16 +555,15 @@ fn apng_case(rng: &mut Rng, st: &mut Stats) -> Case {
                 }
                 input = crate::front::rebuild(&cs);
                 class.push_str(" frame-damaged");
-                st.count("apng_cases_with_damaged_frame");
+                damaged = true;
             }
         }
     }
-    st.count("apng_cases");
     let mut opts = gen_opts(rng, Profile::Lossless, false);
     opts.idat_recoding = true;
     opts.strip = HStrip::None;
     opts.force = rng.bool();
-    Case { img, class, enc: EncOpts::default(), input, opts }
+    (Case { img, class, enc: EncOpts::default(), input, opts }, damaged)
 }
 
 pub fn oracle(ctx: &mut Ctx) {
